@@ -69,6 +69,7 @@ partial def showTree (next : Nat) (e : HExpr) (fresh : List Nat) : String × Lis
 structure St where
   trees : List (Nat × HExpr) := []
   next : Nat := 0
+  resolve : List (Nat × Option Nat) := []     -- frame_t::resolve by name, as the harness reported it
 
 def St.get (st : St) (k : Nat) : Option HExpr := (st.trees.find? (·.1 == k)).map (·.2)
 
@@ -83,17 +84,25 @@ def step (st : St) (line : String) : St × String :=
     match k.toNat?, parse rest with
     | some kk, some [sx] =>
       match decTree sx with
-      | some t => ({ trees := (kk, t) :: st.trees, next := max st.next (maxId t + 1) },
+      | some t => ({ st with trees := (kk, t) :: st.trees, next := max st.next (maxId t + 1) },
                    s!"ok parseBuilt={parseBuilt t} noNaN={noNaN t}")
       | none => (st, "bad-tree")
     | _, _ => (st, "bad-sexp")
   | "RESET" :: _ => ({}, "ok")
+  | "RESOLVE" :: ms =>
+    let tbl := ms.filterMap (fun m => match m.splitOn ">" with
+      | [a, b] => a.toNat?.map (fun x => (x, b.toNat?))
+      | _ => none)
+    ({ st with resolve := tbl }, "ok")
   | [op, k] =>
     match k.toNat?.bind st.get with
     | none => (st, "no-tree")
     | some e =>
       if op == "clone_deeper" then (st, (showTree st.next (cloneDeeper st.next e).1 []).1)
       else if op == "clone" then (st, (showTree st.next (clone st.next e).1 []).1)
+      else if op == "clone_frame" then
+        let res := fun (x : Nat) => ((st.resolve.find? (·.1 == x)).map (·.2)).getD none
+        (st, (showTree st.next (cloneDeeperFrame res st.next e).1 []).1)
       else if op == "sizes" then
         (st, ((subtrees e).filter (fun x => x.id?.isSome)).foldl (fun acc n => acc ++ " " ++ toString (getSize n)) "sizes")
       else (st, "bad-op")
